@@ -261,12 +261,18 @@ def coqchk(pid):
 def _run_lines(binary, lines, env=None, timeout=1800):
     if not lines:
         return []
-    shards = min(NPROC, max(1, len(lines) // 200))
+    shards = min(NPROC, max(1, len(lines) // 50))
     chunks = [lines[i::shards] for i in range(shards)]
     procs = []
+    def _stack():
+        import resource
+        try:
+            resource.setrlimit(resource.RLIMIT_STACK, (resource.RLIM_INFINITY, resource.RLIM_INFINITY))
+        except (ValueError, OSError):
+            pass
     for ch in chunks:
         p = subprocess.Popen([binary], stdin=subprocess.PIPE, stdout=subprocess.PIPE, stderr=subprocess.PIPE,
-                             env=env or ENV, text=True)
+                             env=env or ENV, text=True, preexec_fn=_stack)
         procs.append((p, ch))
     import threading
     results = [None] * shards
